@@ -103,6 +103,7 @@ type fctx struct {
 	assumes []string
 	obls    []*Obligation
 	regions map[string]string // region key -> sort
+	keyTypes map[string]types.Type
 	nfresh  int
 	entry   *state
 	errs    []string
@@ -358,7 +359,7 @@ func (c *fctx) typeFacts(term string, t types.Type, alloc string, depth int) []s
 	case *types.Slice:
 		out = append(out,
 			fmt.Sprintf("(>= (sbase %s) 0)", term), fmt.Sprintf("(>= (soff %s) 0)", term),
-			fmt.Sprintf("(>= (slen %s) 0)", term), fmt.Sprintf("(<= (slen %s) (scap %s))", term, term),
+			fmt.Sprintf("(>= (slen %s) 0)", term), fmt.Sprintf("(<= (slen %s) (scap %s))", term, term), fmt.Sprintf("(<= (scap %s) 9223372036854775807)", term),
 			fmt.Sprintf("(=> (= (sbase %s) 0) (= %s nilSlice))", term, term))
 		if alloc != "" {
 			out = append(out, fmt.Sprintf("(or (= (sbase %s) 0) (select %s (sbase %s)))", term, alloc, term))
